@@ -257,6 +257,17 @@ package escape
 //@   loop node invariant fr2: preserved(all)
 //@   loop node invariant leq: forall m *Node :: visited(node, m) ==> has(h.status, m) && g.status[m] <= h.status[m]
 
+// Matches is the equality every convergence check of the fixpoint uses ("did anything
+// change"): two graphs match only if they have the same nodes with the same statuses
+// -- a step that only raises a status is a change. DeepEqual on a map[*Node]EscapeStatus
+// compares key sets and (scalar) values.
+//@ axiom deepequal_status_maps: forall a map[*Node]EscapeStatus, b map[*Node]EscapeStatus :: reflect.DeepEqual(a, b) ==> (forall m *Node :: (has(a, m) <==> has(b, m)) && a[m] == b[m])
+//@ func EscapeGraph.Matches
+//@   property C15
+//@   requires g != nil && h != nil
+//@   ensures same_statuses: result ==> (forall m *Node :: (has(g.status, m) <==> has(h.status, m)) && g.status[m] == h.status[m])
+//@   modifies nothing
+
 // Instantiating a callee summary (Call) is monotone in the statuses of the caller's
 // nodes because the two places where one step of its worklist consults a status are
 // upward closed: the load nodes behind a mapped node are brought over whenever the
